@@ -27,8 +27,14 @@ func (l *LQueue[T]) Enqueue(item T) {
 	l.mu.Lock()
 	defer l.mu.Unlock()
 
+	if l.n == 0 {
+		// The underlying list can never be empty: once the queue has been drained
+		// or cleared its head node is stale and has to be replaced, not followed.
+		l.list = list.InitDList(item)
+	} else {
+		l.list.Append(item)
+	}
 	l.n++
-	l.list.Append(item)
 }
 
 // Dequeue retrieves and removes the first element from the queue.
@@ -36,6 +42,10 @@ func (l *LQueue[T]) Enqueue(item T) {
 func (l *LQueue[T]) Dequeue() (item T) {
 	l.mu.Lock()
 	defer l.mu.Unlock()
+
+	if l.n == 0 {
+		return
+	}
 
 	node := l.list.Shift()
 	l.n--
@@ -47,6 +57,11 @@ func (l *LQueue[T]) Peek() T {
 	l.mu.RLock()
 	defer l.mu.RUnlock()
 
+	if l.n == 0 {
+		var t T
+		return t
+	}
+
 	return l.list.First()
 }
 
@@ -54,6 +69,10 @@ func (l *LQueue[T]) Peek() T {
 func (l *LQueue[T]) Search(item T) bool {
 	l.mu.Lock()
 	defer l.mu.Unlock()
+
+	if l.n == 0 {
+		return false
+	}
 
 	if _, ok := l.list.Find(item); ok {
 		return true
